@@ -242,7 +242,8 @@ impl ReceiverInner {
 //@@ nowhere
 //@@ subst `Delivery<T>` => `Delivery` rule=R7
 //@@ subst `self.dispose(&delivery, None, Accepted {}.into())` => `self.dispose_accept(&delivery)` rule=R16
-//@@ subst `remote != local` => `!tags_equal(remote, local)` rule=R14
+//@@ subst `remote != local` => `!tags_equal(remote, local)` rule=optional-R14
+//@@ subst `remote == local` => `tags_equal(remote, local)` rule=optional-R14
 //@@ spec
     requires
         old(self).wf(), old(self).buffered().len() + payload@.len() < 0x1_0000_0000,     // ASSUMED: a delivery buffers fewer than 2^32 bytes
